@@ -693,7 +693,10 @@ pub fn c04(rec: &mut Rec, rng: &mut Rng, thorough: bool) {
                 };
                 let head = format!("{}PUT /x HTTP/1.1\r\n{}\r\n{}Content-Length: {}\r\n{}Expect: 100-continue\r\n\r\n", pre, xa, h_before, n, h_after).into_bytes();
                 // the head only: no body byte is offered
-                let cuts = gen::cuts(rng, &head, 4 + variant);
+                // (with a complete request in front, half of the cases arrive in ONE read: the verdict on the oversized
+                // declaration is due from that very read, not from a later one)
+                let strat = if !pre.is_empty() && (n as usize + l) % 2 == 0 { 0 } else { 4 + variant };
+                let cuts = gen::cuts(rng, &head, strat);
                 let mut last = String::new();
                 let mut errs: Vec<String> = vec![];
                 for ch in gen::split_at_cuts(&head, &cuts) {
